@@ -33,7 +33,7 @@ T = {
  'compound-and-incdec': ('X is 9001\nLet X be with 2\nsay X\nLet X be times 9002, 2\nsay X\nBuild X up, up\nKnock X down\nsay X\nY is true\nBuild Y up\nsay Y\nZ is "a"\nLet Z be with 9003\nsay Z\n', {'n1': {}, 'n2': {}, 'n3': {}}),
  'subscript-writes': ('Let Arr at 0 be 9001\nLet Arr at "k" be 9002\nLet Arr at 0 at 1 be 3\nsay Arr at 0 at 1\nsay Arr at "k"\nsay Arr\nLet it at 2 be 5\nsay Arr\n', {'n1': {}, 'n2': {}}),
 }
-BOUNDS = {'generated programs': 'function shapes: globals X, Y; F with parameters from {[X],[Y],[Z],[X,Y],[Y,X]}, a body of <= 1 (thorough 2) atoms out of 11 (writes to a parameter / global / fresh local, pronoun writes after a mention, reads, compound assignment, pronoun read), a return out of {X, Y, it, X plus Y}, called with every argument list over {X, Y, literal}; scope shapes: every sequence of <= 3 statements out of 18 (6 atoms bare / inside an if / inside a one-pass loop) followed by reads of X and Z; all literals symbolic doubles',
+BOUNDS = {'generated programs': 'function shapes: globals X, Y; F with parameters from {[X],[Y],[Z],[X,Y],[Y,X]}, a body of <= 1 (thorough 2) atoms out of 14 (writes to a parameter / global / fresh local, pronoun writes after a mention, reads, compound assignment, pronoun read, return from inside a loop, return from inside an if, a loop with a local left by break), a return out of {X, Y, it, X plus Y}, called with every argument list over {X, Y, literal}; scope shapes: every sequence of <= 2 (thorough 3) statements out of 24 (6 atoms bare / inside an if / inside a one-pass loop / inside a loop left by break) followed by reads of X and Z; all literals symbolic doubles',
           'programs': 'plus the %d templates of this file (argument passing, locals, outer updates, branch / loop scopes, pronouns, returns from nested positions, recursion <= 4 deep, arity / kind / unknown-name errors, evaluation order, arrays by value, shadowing, compound assignment, nested subscript writes)' % len(T),
           'values': 'every placeholder is any double (or any double in the stated range where it bounds recursion / loops)'}
 OUTSIDE = ['programs outside the templates', 'identifier texts are concrete (re-casing / renaming is C15)']
@@ -50,7 +50,7 @@ def jobs(ctx, tier):
     js = [Job(f'template/{n}', h_template, (mir, n), witness=['run-done'], fuel=20_000_000, weight=5) for n in T]
     q = tier == 'quick'
     js += C04.shape_jobs(mir, preparse(ctx, function_shapes(1 if q else 2)), 'function-shapes', chunk=24)
-    js += C04.shape_jobs(mir, preparse(ctx, scope_shapes(3)), 'scope-shapes', chunk=24)
+    js += C04.shape_jobs(mir, preparse(ctx, scope_shapes(2 if q else 3)), 'scope-shapes', chunk=24)
     return js
 
 
